@@ -69,7 +69,7 @@ structure Hyp (skip0 : List Str) (ts : List Tok) : Prop where
   group whose text has no surrounding blanks (and no made-up braces inside) -/
   envPlain : ∀ pre esc n r, ts = pre ++ esc :: n :: r → esc.cat = .Escape →
       (n.text = sBegin ∨ n.text = sEnd) →
-      ∀ g tol mode a0 as rest, readArgs g (-1) (-1) tol mode r = .ok (a0 :: as, rest) →
+      ∀ g nreq nopt tol mode a0 as rest, readArgs g nreq nopt tol mode r = .ok (a0 :: as, rest) →
         (∃ b p, a0 = .group .brace b p) ∧ strip a0.string = a0.string ∧ noBareA [a0] = true
   /-- `\end{name}` of a verbatim-like environment is spelled by exactly five tokens -/
   skipPlain : ∀ name, memStr name skip0 = true → ∀ pre rest, ts = pre ++ rest →
@@ -109,7 +109,7 @@ def ConsAt (skip0 : List Str) (f : Nat) : Prop :=
       Hyp skip0 ts → (∀ x, memStr x skip = true → memStr x skip0 = true) →
       noBareL es = true → Cons tol ts (serL es) rest ∧
       (∀ eargs, ea = some eargs → ∃ esc n r g rest', rest = esc :: n :: r ∧ esc.cat = .Escape ∧
-          n.text = sEnd ∧ readArgs g (-1) (-1) tol mode r = .ok (eargs, rest'))) ∧
+          n.text = sEnd ∧ readCommand g 1 0 tol mode (n :: r) = .ok ((n, eargs), rest'))) ∧
   (∀ nreq nopt tol mode ts n args rest, readCommand f nreq nopt tol mode ts = .ok ((n, args), rest) →
       Hyp skip0 ts → (noBareA args = true → Cons tol ts (n.text ++ serL args) rest) ∧
       (ts.head? = some n ∨ (ts = [] ∧ n.text = []))) ∧
